@@ -29,6 +29,8 @@ class ScalesSocket(object):
       try:
         self.handle.connect(res[4])
       except socket.error as e:
+        # Don't leave a never-connected handle behind: isOpen() must be False.
+        self.close()
         if res is not resolved[-1]:
           continue
         else:
